@@ -272,6 +272,10 @@ pub fn check_class(case: &Case, l: &mut Local) -> Verdict {
 
 // ---- variant 1a: bounded-exhaustive legacy / u bracket contents: all sequences of up to 3 tokens
 
+pub fn bracket_cases() -> Vec<Case> {
+    bracket_slice().clone()
+}
+
 fn bracket_slice() -> &'static Vec<Case> {
     static S: OnceLock<Vec<Case>> = OnceLock::new();
     S.get_or_init(|| {
